@@ -3,7 +3,7 @@ from . import supcommon as S
 
 OCAML = S.OCAML
 GO = S.GO
-FAMILIES = "reload,mixed,big".split(",")
+FAMILIES = "reload,mixed,big,shorttimers,hupburst".split(",")
 PROP = "props/C05.v"
 PROOFS = ["proofs/SupInv.v", "proofs/SupStop.v", "proofs/SupTrig.v", "proofs/SupGate.v", "proofs/SupOnce.v", "proofs/SupReload.v", "proofs/SupCount.v"]
 
